@@ -459,16 +459,79 @@ def rule_wdisp(rm, em):
     return obs
 
 
+def rule_handler_must(rm, em):
+    """an operator / call node is evaluated *by its registered handler*: in the evaluator region for Unary, Binary,
+    Postfix and Function nodes no success return avoids the handler invocation (a fast path that answers from a built-in
+    truth table, `false && x`, bypasses whatever was registered under that name last)"""
+    import r_order, r_errd
+    prog = rm.prog
+    obs = []
+    # bodies (below the evaluator) that run a handler and hand its Result back
+    carriers = set()
+    for i in em.reach:
+        g = prog.by_id.get(i)
+        if g is not None and i not in em.eval_ids and not g.is_closure and r_errd.is_crate_result(g.locals[0]['ty']) and (em.handler_sites(g) or any(em.handler_sites(cl) for cl in prog.f.closures_of(g))):
+            carriers.add(i)
+    n = 0
+    for b in em.bodies:
+        sites = em.child_sites(b)
+        kinds = set()
+        for c in sites:
+            p = em.child_prov(c)
+            r = r_order.prov_root(p) if p else None
+            if r and r[0] in ('Unary', 'Binary', 'Postfix', 'Function'):
+                kinds.add(r[0])
+        if getattr(b, 'orig_id', b.id) == em.root.id:
+            kinds |= {'Function'}          # a call without arguments has no child site
+        hb = {h.bb for h in em.handler_sites(b)} | {c.bb for c in b.live_calls if c.ruid in carriers}
+        for kind in sorted(kinds):
+            entry = r_order._arm_entry(em, b, kind)
+            if entry == 0 and getattr(b, 'orig_id', b.id) == em.root.id:
+                continue
+            if getattr(b, 'orig_id', b.id) != em.root.id and len(kinds) > 1:
+                continue          # a helper shared by several node kinds: read per kind only in the dispatching body
+            region = b.reachable_from(entry)
+            hbr = hb & region
+            key = 'HMUST|%s|%s' % (b.name, kind)
+            n += 1
+            if not hbr:
+                # the arm only forwards to another evaluator body (the dispatching `exec`): decided there
+                if any(c.ruid in em.eval_ids and c.bb in region for c in b.live_calls):
+                    obs.append(ok('HMUST', key, '%s nodes are forwarded to another evaluator body' % kind, b.where(entry)))
+                else:
+                    obs.append(bad('HMUST', key, '%s nodes are evaluated without invoking any registered handler' % kind, b.where(entry), body=b.name, bb=entry))
+                continue
+            fwd = {c.bb for c in b.live_calls if c.ruid in em.eval_ids and c.dest['l'] == 0 and not c.dest['p'] and c.bb in region}
+            if r_order._ok_return_reachable(b, entry, hbr | fwd):
+                obs.append(bad('HMUST', key, 'a %s node can be evaluated successfully without invoking the handler registered for its name: a built-in answer bypasses a re-registered operator / function' % kind, b.where(entry), body=b.name, bb=entry))
+            else:
+                obs.append(ok('HMUST', key, 'every success return of the %s evaluation passes the invocation of the looked-up handler' % kind, b.where(entry)))
+    obs.append(floor('HMUST', 'handler-regions', n, 3, 'unary, binary, postfix operators and calls are evaluated somewhere'))
+    return obs
+
+
 def rule_receivers(rm, em):
     """no cached handler: every handler invoked by the evaluator comes from a lookup made in this
     evaluation (result of a local call that reaches a lock), never from a static or an AST field"""
     prog = rm.prog
     obs = []
     k = 0
-    for b in em.bodies:
-        for h in em.handler_sites(b):
+    for b0 in em.bodies:
+        for h0 in em.handler_sites(b0):
+            b, h = b0, h0
             origins = trace_operand(b, h.args[0], through_calls=set(TRANSPARENT_CALLS) | {'std::clone::Clone::clone'})
-            key = 'RECV|%s|#%d' % (b.name, k)
+            if b.is_closure and not getattr(b, 'is_view', False) and any(o.kind == 'param' and o.data >= 2 for o in origins):
+                # the handler is a parameter of a closure (`registry.get(name).and_then(|func| func(params))`): read the
+                # enclosing body with the std combinator that runs the closure opened
+                parent = prog.by_id.get(b.j.get('parent'))
+                pv = prog.view(parent, keep=lambda g: True, tag='comb') if parent is not None and not parent.is_closure else None
+                if pv is not None and pv is not parent and b.name in (pv.j.get('inlined') or []):
+                    bo = pv.j.get('block_origin') or {}
+                    sites = [int(nb) for nb, org in bo.items() if tuple(org) == (b.id, h.bb) and pv.blocks[int(nb)]['term']['k'] == 'call']
+                    if len(sites) == 1 and pv.call_at(sites[0]) is not None:
+                        b, h = pv, pv.call_at(sites[0])
+                        origins = trace_operand(b, h.args[0], through_calls=set(TRANSPARENT_CALLS) | {'std::clone::Clone::clone'})
+            key = 'RECV|%s|#%d' % (b0.name, k)
             k += 1
             bad_o = []
             for o in origins:
@@ -516,7 +579,7 @@ def _own_name_lookup(rm, em, b, c):
     import r_order
     root = r_order.prov_root(p) if p is not None else None
     if root is None:
-        if getattr(b, 'orig_id', b.id) not in em.eval_ids and not getattr(b, 'is_view', False):
+        if getattr(b, 'orig_id', b.id) not in em.eval_ids:
             return None          # a helper below the evaluator: the name is what its caller handed it
         return 'the registry is not read under the name stored in the node (%s)' % r_order.prov_str(p)
     return None
